@@ -43,7 +43,8 @@ fn decorate(rng: &mut Rng, text: &str) -> String {
         out.push_str("\n\n\n");
     }
     if rng.chance(20) {
-        out = format!("\u{feff}{}", out).replace('\u{feff}', ""); // (BOM not accepted by the parser: keep text BOM-free)
+        // a byte order mark in front of the document (ignored by the GraphQL lexer, part of the verbatim text)
+        out = format!("\u{feff}{}", out);
     }
     out
 }
